@@ -70,11 +70,51 @@ def _is_file_write(node: ast.AST, fname: str = 'file') -> ast.AST | None:
     return None
 
 
-def _pack_call(node: ast.AST) -> tuple[str, ast.AST] | None:
-    """pack('<fmt>', value) -> (fmt, value)"""
-    if isinstance(node, ast.Call) and isinstance(node.func, ast.Name) and node.func.id == 'pack' and len(node.args) == 2 \
+def _struct_call(node: ast.AST, structs: dict[str, str]) -> tuple[str, str, list[ast.AST], str | None] | None:
+    """Every spelling of a struct conversion -> (method, format, remaining arguments, name of the Struct constant or None):
+    pack('<fmt>', v...) / struct.pack(...) / unpack(...) / struct.unpack(...)          module functions
+    NAME.pack(v...) / NAME.unpack(b)   with NAME = Struct('<fmt>') at module level         precompiled constants
+    Struct('<fmt>').pack(v...) / struct.Struct('<fmt>').unpack(b)                            inline objects"""
+    if not isinstance(node, ast.Call) or node.keywords:
+        return None
+    f = node.func
+    meth = f.id if isinstance(f, ast.Name) else f.attr if isinstance(f, ast.Attribute) else None
+    if meth not in ('pack', 'unpack'):
+        return None
+    if isinstance(f, ast.Name) or (isinstance(f, ast.Attribute) and isinstance(f.value, ast.Name) and f.value.id == 'struct'):
+        if node.args and isinstance(node.args[0], ast.Constant) and isinstance(node.args[0].value, str):
+            return meth, node.args[0].value, list(node.args[1:]), None
+        return None
+    base = f.value
+    if isinstance(base, ast.Name) and base.id in structs:
+        return meth, structs[base.id], list(node.args), base.id
+    if isinstance(base, ast.Call) and ast.unparse(base.func) in ('Struct', 'struct.Struct') and len(base.args) == 1 and not base.keywords \
+            and isinstance(base.args[0], ast.Constant) and isinstance(base.args[0].value, str):
+        return meth, base.args[0].value, list(node.args), None
+    return None
+
+
+def _module_structs(tree: ast.Module) -> dict[str, str]:
+    """NAME = Struct('<fmt>') / struct.Struct('<fmt>') at module level (also annotated) -> {NAME: fmt}."""
+    out: dict[str, str] = {}
+    for n in tree.body:
+        tgt = n.targets[0] if isinstance(n, ast.Assign) and len(n.targets) == 1 else n.target if isinstance(n, ast.AnnAssign) else None
+        v = getattr(n, 'value', None)
+        if isinstance(tgt, ast.Name) and isinstance(v, ast.Call) and ast.unparse(v.func) in ('Struct', 'struct.Struct') and len(v.args) == 1 \
+                and not v.keywords and isinstance(v.args[0], ast.Constant) and isinstance(v.args[0].value, str):
+            out[tgt.id] = v.args[0].value
+    return out
+
+
+def _fmt_arg(node: ast.AST, structs: dict[str, str]) -> str | None:
+    """A struct format given as a string literal, a module-level Struct constant, or an inline Struct('<fmt>')."""
+    if isinstance(node, ast.Constant) and isinstance(node.value, str):
+        return node.value
+    if isinstance(node, ast.Name) and node.id in structs:
+        return structs[node.id]
+    if isinstance(node, ast.Call) and ast.unparse(node.func) in ('Struct', 'struct.Struct') and len(node.args) == 1 and not node.keywords \
             and isinstance(node.args[0], ast.Constant) and isinstance(node.args[0].value, str):
-        return node.args[0].value, node.args[1]
+        return node.args[0].value
     return None
 
 
@@ -99,7 +139,7 @@ def translate_cmdseq() -> tuple[str, dict]:
         if isinstance(n, ast.Assign) and len(n.targets) == 1 and isinstance(n.targets[0], ast.Name):
             nm = n.targets[0].id
             v = n.value
-            if isinstance(v, ast.Call) and isinstance(v.func, ast.Name) and v.func.id == 'Struct' and len(v.args) == 1 \
+            if isinstance(v, ast.Call) and ast.unparse(v.func) in ('Struct', 'struct.Struct') and len(v.args) == 1 and not v.keywords \
                     and isinstance(v.args[0], ast.Constant) and isinstance(v.args[0].value, str):
                 structs[nm] = v.args[0].value
             elif nm == 'SEQ_HEADER':
@@ -153,11 +193,20 @@ def translate_cmdseq() -> tuple[str, dict]:
     pad_widths: dict[str, int] = {}
     ensure_blank = None
     writes_seen = 0
+    # locals of write() assigned exactly once, from a len(...) call: read through them
+    assigned: dict[str, list[ast.AST]] = {}
+    for node in ast.walk(w):
+        for t in (node.targets if isinstance(node, ast.Assign) else [node.target] if isinstance(node, (ast.AugAssign, ast.AnnAssign, ast.For)) else []):
+            for nm in ast.walk(t):
+                if isinstance(nm, ast.Name):
+                    assigned.setdefault(nm.id, []).append(node.value if isinstance(node, ast.Assign) and isinstance(t, ast.Name) else None)
+    once = {k: v[0] for k, v in assigned.items() if len(v) == 1 and isinstance(v[0], ast.Call) and ast.unparse(v[0].func) == 'len'}
     for node in ast.walk(w):
         if isinstance(node, ast.Call) and isinstance(node.func, ast.Attribute) and node.func.attr == 'write':
             writes_seen += 1
             arg = node.args[0]
-            pk = _pack_call(arg)
+            sc = _struct_call(arg, structs)
+            pk = (sc[1], sc[2][0]) if sc is not None and sc[0] == 'pack' and len(sc[2]) == 1 else None
             pd = _pad_call(arg)
             if isinstance(arg, ast.Name) and arg.id == 'SEQ_HEADER':
                 continue
@@ -169,6 +218,8 @@ def translate_cmdseq() -> tuple[str, dict]:
                     version_src = val.value
                     version_bits = struct.unpack('<I', struct.pack('<f', val.value))[0]
                 elif fmt.lstrip('<@=') == 'I':
+                    if isinstance(val, ast.Name) and val.id in once:
+                        val = once[val.id]           # n = len(xs); pack('I', n)
                     count_fmts.append(ast.unparse(val))
                 else:
                     raise TranslateError(f'cmdseq.py: write(): pack format {fmt!r} not recognised')
@@ -178,12 +229,11 @@ def translate_cmdseq() -> tuple[str, dict]:
                     raise TranslateError(f'cmdseq.py: write(): unexpected pad_string({pd[0]}, ...) written directly')
                 name_w = pd[1]
                 continue
-            if isinstance(arg, ast.Call) and isinstance(arg.func, ast.Attribute) and arg.func.attr == 'pack' \
-                    and isinstance(arg.func.value, ast.Name) and arg.func.value.id in structs:
+            if sc is not None and sc[0] == 'pack' and sc[3] is not None:
                 if pack_struct is not None:
                     raise TranslateError('cmdseq.py: write(): more than one struct pack call')
-                pack_struct = arg.func.value.id
-                for a in arg.args:
+                pack_struct = sc[3]
+                for a in sc[2]:
                     p = _pad_call(a)
                     if p is not None:
                         pad_widths[p[0]] = p[1]
@@ -193,14 +243,19 @@ def translate_cmdseq() -> tuple[str, dict]:
                 continue
             raise TranslateError(f'cmdseq.py: write(): unrecognised write `{ast.unparse(arg)}` (line {node.lineno})')
         if isinstance(node, ast.Assign) and ast.unparse(node.targets[0]) == 'ensure_file':
-            p = _pad_call(node.value)
-            if p is not None:
-                pad_widths['ensure:' + p[0]] = p[1]
-            elif isinstance(node.value, ast.Call) and isinstance(node.value.func, ast.Name) and node.value.func.id == 'bytes' \
-                    and len(node.value.args) == 1 and isinstance(node.value.args[0], ast.Constant):
-                ensure_blank = node.value.args[0].value
-            else:
-                raise TranslateError(f'cmdseq.py: write(): ensure_file = `{ast.unparse(node.value)}` not recognised')
+            # both arms of `X if c else Y` are values the field can take, like the two branches of the statement form
+            arms = [node.value]
+            while any(isinstance(a, ast.IfExp) for a in arms):
+                arms = [b for a in arms for b in ([a.body, a.orelse] if isinstance(a, ast.IfExp) else [a])]
+            for arm in arms:
+                p = _pad_call(arm)
+                if p is not None:
+                    pad_widths['ensure:' + p[0]] = p[1]
+                elif isinstance(arm, ast.Call) and isinstance(arm.func, ast.Name) and arm.func.id == 'bytes' \
+                        and len(arm.args) == 1 and isinstance(arm.args[0], ast.Constant):
+                    ensure_blank = arm.args[0].value
+                else:
+                    raise TranslateError(f'cmdseq.py: write(): ensure_file = `{ast.unparse(node.value)}` not recognised')
     if version_bits is None or name_w is None or pack_struct is None or ensure_blank is None:
         raise TranslateError('cmdseq.py: write(): version tag / name padding / struct pack / blank ensure_file not found')
     WMAP = {'cmd.enabled': 'KEnabled', 'special': 'KSpecial', 'pad:exe': 'KExe', 'pad:cmd.args': 'KArgs', 'True': 'KLong',
@@ -227,6 +282,7 @@ def translate_cmdseq() -> tuple[str, dict]:
     lt_struct = ge_struct = None
     read_name_w = None
     read_counts = 0
+    read_versions = 0
     for node in ast.walk(p):
         if isinstance(node, ast.If) and isinstance(node.test, ast.Compare) and ast.unparse(node.test.left) == 'version':
             if len(node.test.ops) != 1 or not isinstance(node.test.comparators[0], ast.Constant):
@@ -244,10 +300,12 @@ def translate_cmdseq() -> tuple[str, dict]:
             a = node.args[0]
             if isinstance(a, ast.Call) and ast.unparse(a.func) == 'file.read' and isinstance(a.args[0], ast.Constant):
                 read_name_w = a.args[0].value
-        if isinstance(node, ast.Call) and isinstance(node.func, ast.Name) and node.func.id == 'unpack' \
-                and isinstance(node.args[0], ast.Constant) and node.args[0].value.lstrip('<@=') == 'I':
+        sc = _struct_call(node, structs)
+        if sc is not None and sc[0] == 'unpack' and sc[1].lstrip('<@=') == 'I':
             read_counts += 1
-    if thr is None or read_name_w is None or read_counts != 2:
+        if sc is not None and sc[0] == 'unpack' and sc[1].lstrip('<@=') == 'f':
+            read_versions += 1
+    if thr is None or read_name_w is None or read_counts != 2 or read_versions != 1:
         raise TranslateError('cmdseq.py: parse(): version test / name width / count reads not recognised')
     if thr[0] not in ('Lt', 'LtE'):
         raise TranslateError(f'cmdseq.py: parse(): version comparison {thr[0]} not modelled')
@@ -329,7 +387,12 @@ def _printf_pieces(tpl: bytes, where: str) -> list[tuple]:
     return out
 
 
-def _write_pieces(arg: ast.AST, where: str) -> list[tuple]:
+def _write_pieces(arg: ast.AST, where: str, consts: dict[str, bytes] | None = None) -> list[tuple]:
+    consts = consts or {}
+    if isinstance(arg, ast.Name) and arg.id in consts:
+        arg = ast.copy_location(ast.Constant(value=consts[arg.id]), arg)
+    if isinstance(arg, ast.BinOp) and isinstance(arg.left, ast.Name) and arg.left.id in consts:
+        arg = ast.copy_location(ast.BinOp(left=ast.Constant(value=consts[arg.left.id]), op=arg.op, right=arg.right), arg)
     if isinstance(arg, ast.Constant) and isinstance(arg.value, bytes):
         return [('Lit', arg.value)] if arg.value else []
     if isinstance(arg, ast.BinOp) and isinstance(arg.op, ast.Mod) and isinstance(arg.left, ast.Constant) and isinstance(arg.left.value, bytes):
@@ -342,7 +405,7 @@ def _write_pieces(arg: ast.AST, where: str) -> list[tuple]:
     if isinstance(arg, ast.BinOp) and isinstance(arg.op, ast.Add):
         left, right = arg.left, arg.right
         if isinstance(left, ast.Call) and isinstance(left.func, ast.Attribute) and left.func.attr == 'encode':
-            return [('ConvStr',)] + _write_pieces(right, where)
+            return [('ConvStr',)] + _write_pieces(right, where, consts)
     raise TranslateError(f'smd.py: {where}: unrecognised write argument `{ast.unparse(arg)}`')
 
 
@@ -353,9 +416,11 @@ def _mentions_file(node: ast.AST) -> bool:
 class _Lines:
     """Enumerate the lines a statement list can write: state = set of partial lines (tuples of pieces)."""
 
-    def __init__(self) -> None:
+    def __init__(self, consts: dict[str, bytes] | None = None) -> None:
         self.done: set[tuple] = set()
         self.census: list[dict] = []
+        self.consts: dict[str, bytes] = dict(consts or {})      # names bound to one bytes literal (module level or local)
+        self.dead: set[str] = set()
 
     def emit(self, partials: set[tuple], pieces: list[tuple]) -> set[tuple]:
         out = set()
@@ -385,7 +450,7 @@ class _Lines:
     def stmt(self, st: ast.stmt, partials: set[tuple]) -> set[tuple]:
         arg = _is_file_write(st)
         if arg is not None:
-            pcs = _write_pieces(arg, f'line {st.lineno}')
+            pcs = _write_pieces(arg, f'line {st.lineno}', {k: v for k, v in self.consts.items() if k not in self.dead})
             self.census.append({'line': st.lineno, 'pieces': [[p[0]] + [x.decode('latin1') if isinstance(x, bytes) else x for x in p[1:]] for p in pcs]})
             return self.emit(partials, pcs)
         if isinstance(st, ast.If):
@@ -406,6 +471,16 @@ class _Lines:
         if isinstance(st, (ast.Assign, ast.AnnAssign, ast.AugAssign, ast.Assert, ast.Pass, ast.Expr, ast.Delete)):
             if _mentions_file(st):
                 raise TranslateError(f'smd.py: line {st.lineno}: `file` used outside a plain file.write(...) statement')
+            tgts = st.targets if isinstance(st, ast.Assign) else [st.target] if isinstance(st, (ast.AnnAssign, ast.AugAssign)) else []
+            for t in tgts:
+                for x in ast.walk(t):
+                    if isinstance(x, ast.Name):
+                        v = getattr(st, 'value', None)
+                        if isinstance(st, ast.Assign) and len(tgts) == 1 and isinstance(t, ast.Name) and isinstance(v, ast.Constant) \
+                                and isinstance(v.value, bytes) and x.id not in self.consts and x.id not in self.dead:
+                            self.consts[x.id] = v.value
+                        elif not (x.id in self.consts and isinstance(v, ast.Constant) and v.value == self.consts[x.id]):
+                            self.dead.add(x.id)          # rebound to something else: no longer a known template
             return partials
         if isinstance(st, ast.Raise):
             return set()
@@ -449,7 +524,10 @@ def translate_smd() -> tuple[str, dict]:
                             regex = c.args[0].value
     if regex is None:
         raise TranslateError('smd.py: Mesh._parse_smd_bones: re.fullmatch(<bytes pattern>, line) not found')
-    L = _Lines()
+    mconsts = {n.targets[0].id: n.value.value for n in tree.body
+               if isinstance(n, ast.Assign) and len(n.targets) == 1 and isinstance(n.targets[0], ast.Name)
+               and isinstance(n.value, ast.Constant) and isinstance(n.value.value, bytes)}
+    L = _Lines(mconsts)
     rest = L.block(body, {()})
     dangling = [p for p in rest if p]
     lines = sorted(L.done, key=lambda t: repr(t))
@@ -509,6 +587,50 @@ def _counted_fmt(node: ast.AST, what: str) -> tuple[str, str]:
     raise TranslateError(f'choreo.py: {what}: counted struct format `{ast.unparse(node)}` not recognised')
 
 
+def _body_as_expr(stmts: list[ast.stmt], boolean: bool = False) -> ast.AST | None:
+    """A function body made of returns, `if` with early returns and the `for x in xs: if P: return True` loop, as ONE expression:
+    `if c: return A` + rest == `A if c else <rest>`; in a boolean context (only the truth value of the result is used)
+    `if c: return True` + rest == `c or <rest>` and the loop + rest == `any(P for x in xs) or <rest>`.  None: not of that shape."""
+    stmts = [b for b in stmts if not (isinstance(b, ast.Expr) and isinstance(b.value, ast.Constant)) and not isinstance(b, ast.Pass)]
+    if not stmts:
+        return None
+    st, rest = stmts[0], stmts[1:]
+
+    def const(e: ast.AST | None, val: bool) -> bool:
+        return isinstance(e, ast.Constant) and e.value is val
+    if isinstance(st, ast.Return):
+        return st.value
+    if isinstance(st, ast.If):
+        a = _body_as_expr(st.body + rest, boolean)
+        b = _body_as_expr(st.orelse + rest, boolean)
+        if a is None or b is None:
+            return None
+        if boolean and const(a, True):
+            return ast.BoolOp(op=ast.Or(), values=[st.test, b])
+        if boolean and const(b, False):
+            return ast.BoolOp(op=ast.And(), values=[st.test, a])
+        return ast.IfExp(test=st.test, body=a, orelse=b)
+    if boolean and isinstance(st, ast.For) and not st.orelse and isinstance(st.target, ast.Name) and len(st.body) == 1 \
+            and isinstance(st.body[0], ast.If) and not st.body[0].orelse and len(st.body[0].body) == 1 \
+            and isinstance(st.body[0].body[0], ast.Return) and const(st.body[0].body[0].value, True):
+        r = _body_as_expr(rest, boolean)
+        if r is None:
+            return None
+        found = ast.Call(func=ast.Name(id='any', ctx=ast.Load()), keywords=[], args=[ast.GeneratorExp(
+            elt=st.body[0].test, generators=[ast.comprehension(target=st.target, iter=st.iter, ifs=[], is_async=0)])])
+        return found if const(r, False) else ast.BoolOp(op=ast.Or(), values=[found, r])
+    return None
+
+
+def _or_terms(e: ast.AST) -> list[ast.AST]:
+    if isinstance(e, ast.BoolOp) and isinstance(e.op, ast.Or):
+        return [t for v in e.values for t in _or_terms(v)]
+    return [e]
+
+
+_MODULE_FUNCS: dict[str, ast.FunctionDef] = {}     # module-level functions of choreo.py (set by translate_scenes_image)
+
+
 def _lambda_attr(node: ast.AST, what: str) -> str:
     """lambda e: e.ATTR -> ATTR"""
     if isinstance(node, ast.Lambda) and len(node.args.args) == 1 and not node.args.defaults and isinstance(node.body, ast.Attribute) \
@@ -517,6 +639,13 @@ def _lambda_attr(node: ast.AST, what: str) -> str:
     if isinstance(node, ast.Call) and ast.unparse(node.func) in ('operator.attrgetter', 'attrgetter') and len(node.args) == 1 \
             and isinstance(node.args[0], ast.Constant) and isinstance(node.args[0].value, str) and '.' not in node.args[0].value:
         return node.args[0].value
+    if isinstance(node, ast.Name) and node.id in _MODULE_FUNCS:
+        # key=helper with `def helper(e): return e.ATTR` at module level
+        fn = _MODULE_FUNCS[node.id]
+        body = _body_as_expr(fn.body)
+        if len(fn.args.args) == 1 and not fn.args.defaults and not fn.args.vararg and not fn.args.kwarg and not fn.args.kwonlyargs \
+                and not fn.decorator_list and body is not None:
+            return _lambda_attr(ast.Lambda(args=fn.args, body=body), what)
     raise TranslateError(f'choreo.py: {what}: sort key `{ast.unparse(node)}` is not an attribute of the entry')
 
 
@@ -587,6 +716,18 @@ def _input_form(expr: ast.AST, src: str, what: str) -> tuple[str, str]:
                     if isinstance(b, ast.Attribute) and isinstance(b.value, ast.Subscript) and isinstance(b.value.value, ast.Name) \
                             and b.value.value.id == a and isinstance(b.value.slice, ast.Constant) and b.value.slice.value == 1:
                         return 'values', f'SKAttr {_eattr(b.attr)}'
+        # [scenes[k] for k in sorted(scenes)]  -- looked up by key, in key order (keys() or the mapping itself)
+        if isinstance(g.target, ast.Name) and isinstance(expr.elt, ast.Subscript) and isinstance(expr.elt.value, ast.Name) \
+                and expr.elt.value.id == src and isinstance(expr.elt.slice, ast.Name) and expr.elt.slice.id == g.target.id:
+            def keys(e: ast.AST) -> bool:
+                return (isinstance(e, ast.Name) and e.id == src) or (
+                    isinstance(e, ast.Call) and not e.args and not e.keywords and isinstance(e.func, ast.Attribute)
+                    and e.func.attr == 'keys' and isinstance(e.func.value, ast.Name) and e.func.value.id == src)
+            if keys(it):
+                return 'values', 'SKNone'
+            if isinstance(it, ast.Call) and isinstance(it.func, ast.Name) and it.func.id == 'sorted' and len(it.args) == 1 and not it.keywords \
+                    and keys(it.args[0]):
+                return 'values', 'SKDictKey'
     raise TranslateError(f'choreo.py: {what}: `{ast.unparse(expr)}` is not a recognised way to list the entries')
 
 
@@ -601,10 +742,10 @@ def _attr_call(node: ast.AST, obj: str, meth: str) -> ast.Call | None:
     return None
 
 
-def _struct_pack(node: ast.AST) -> tuple[str, list[ast.AST]] | None:
-    if isinstance(node, ast.Call) and ast.unparse(node.func) in ('struct.pack', 'pack') and node.args and not node.keywords \
-            and isinstance(node.args[0], ast.Constant) and isinstance(node.args[0].value, str):
-        return node.args[0].value, list(node.args[1:])
+def _struct_pack(node: ast.AST, structs: dict[str, str] | None = None) -> tuple[str, list[ast.AST]] | None:
+    sc = _struct_call(node, structs or {})
+    if sc is not None and sc[0] == 'pack':
+        return sc[1], sc[2]
     return None
 
 
@@ -616,7 +757,10 @@ def _coq_pairs(flds: list[str], srcs: list[str], what: str) -> str:
 
 def translate_scenes_image() -> tuple[str, dict]:
     tree = ast.parse(src_text('choreo.py'))
+    mstructs = _module_structs(tree)
     funcs = {n.name: n for n in tree.body if isinstance(n, ast.FunctionDef)}
+    _MODULE_FUNCS.clear()
+    _MODULE_FUNCS.update(funcs)
     classes = {n.name: n for n in tree.body if isinstance(n, ast.ClassDef)}
     for need in ('save_scenes_image_sync', 'parse_scenes_image'):
         if need not in funcs:
@@ -783,7 +927,7 @@ def translate_scenes_image() -> tuple[str, dict]:
                 wr = _attr_call(c, 'file', 'write')
                 if wr is not None:
                     a = wr.args[0]
-                    pk = _struct_pack(a)
+                    pk = _struct_pack(a, mstructs)
                     if pk is not None:
                         events.append({'k': 'pack', 'ctx': ctx, 'fmt': pk[0], 'src': [src_of(x, loopvar, inner) for x in pk[1]], 'line': st.lineno})
                     elif isinstance(a, ast.BinOp) and isinstance(a.op, ast.Add) and isinstance(a.right, ast.Constant) and a.right.value == b'\x00' \
@@ -992,7 +1136,10 @@ def translate_scenes_image() -> tuple[str, dict]:
             c = struct_read_call(n.value)
             t = n.targets[0]
             if c is not None and isinstance(t, (ast.List, ast.Tuple)) and all(isinstance(x, ast.Name) for x in t.elts):
-                reads.append({'fmt': _const_str(c.args[0], 'struct_read format'), 'targets': [x.id for x in t.elts], 'line': n.lineno})
+                rf = _fmt_arg(c.args[0], mstructs)
+                if rf is None:
+                    raise TranslateError(f'choreo.py: parse_scenes_image line {n.lineno}: struct_read format `{ast.unparse(c.args[0])}` not recognised')
+                reads.append({'fmt': rf, 'targets': [x.id for x in t.elts], 'line': n.lineno})
             if isinstance(n.value, ast.Call) and ast.unparse(n.value.func) == 'binformat.read_offset_array':
                 a = n.value.args
                 pool_var = ast.unparse(t)
@@ -1160,6 +1307,11 @@ class _TextCensus:
         self.const_tables: set[str] = set()
         self.funcs: dict[str, ast.FunctionDef] = {}
         self.sites: list[tuple[int, str, str, str]] = []   # (line, class, type, source)
+        self.cond_lines: list[list] = []                   # written templates holding a quoted-on-demand field
+        self.alias: dict[str, str] = {}                    # local name -> the attribute read it was last assigned (x = obj.attr)
+        self.lines: list[tuple[str, list]] = []            # (function, written template) in walking order: ('lit', text) / ('fld', source)
+        self.cur_fn = ''
+        self._stack: list[str] = []
         for n in self.tree.body:
             if isinstance(n, ast.Assign) and len(n.targets) == 1 and isinstance(n.targets[0], ast.Name):
                 self._maybe_table(n.targets[0].id, n.value)
@@ -1197,12 +1349,14 @@ class _TextCensus:
         if isinstance(e, ast.BoolOp) and isinstance(e.op, ast.Or) and len(e.values) == 2 and isinstance(e.values[1], ast.Constant):
             return self.type_of(e.values[0], env, where)
         if isinstance(e, ast.Name):
-            if e.id in env:
+            if env.get(e.id, 'unknown') not in ('unknown', 'TyStrSeq'):
                 return env[e.id]
             raise TranslateError(f'{self.rel}: {where}: written name `{e.id}` has no known type')
         if isinstance(e, ast.Subscript):
             if isinstance(e.value, ast.Name) and e.value.id in self.const_tables:
                 return 'TyWord'
+            if isinstance(e.value, ast.Name) and env.get(e.value.id) == 'TyStrSeq':
+                return 'TyStr'                 # an element of a collection of strings
             return self.type_of(e.value, env, where)
         if isinstance(e, ast.Call):
             fn = ast.unparse(e.func)
@@ -1259,7 +1413,7 @@ class _TextCensus:
                     alts = [a + b for a in alts for b in tpl[inner.id]]
                     continue
                 if isinstance(inner, ast.Name) and env.get(inner.id) == 'layout':
-                    alts = [a + [('lit', '')] for a in alts]
+                    alts = [a + [('lit', _IND)] for a in alts]        # the run-time indent: a marker character inside the literal
                     continue
                 if isinstance(inner, ast.Call) and ast.unparse(inner.func) == 'escape_text' and len(inner.args) == 1:
                     ty = self.type_of(inner.args[0], env, where)
@@ -1282,6 +1436,9 @@ class _TextCensus:
                     flat[-1] = ('lit', flat[-1][1] + p[1])
                 elif not (p[0] == 'lit' and p[1] == ''):
                     flat.append(p)
+            self.lines.append((self.cur_fn, [('lit', p[1]) if p[0] == 'lit' else ('fld', self.alias.get(p[3], p[3]), bool(p[1])) for p in flat]))
+            if cond and any(p[0] == 'fld' and p[3] in cond for p in flat):
+                self.cond_lines.append([('lit', p[1]) if p[0] == 'lit' else ('fld', p[3] in cond, self.alias.get(p[3], p[3])) for p in flat])
             for i, p in enumerate(flat):
                 if p[0] != 'fld':
                     continue
@@ -1312,14 +1469,40 @@ class _TextCensus:
                 continue
             elif ann == 'str':
                 env[a.arg] = (const_params or {}).get(a.arg, 'TyStr')
+            elif re.search(r'\bstr\b', ann):
+                env[a.arg] = 'TyStrSeq'        # a collection of strings: its elements are free text
             elif ann in ('int', 'float', 'bool'):
                 env[a.arg] = 'TyNum'
             else:
                 env[a.arg] = 'TyWord'
         tpl: dict[str, list] = {}
         cond: dict[str, str] = {}
-        self._block(fn.body, env, tpl, cond, key)
+        outer = self.cur_fn
+        if not self._stack:
+            self.cur_fn = key                  # writes of a helper are writes of the function that calls it
+        self._stack.append(key)
+        try:
+            self._block(fn.body, env, tpl, cond, key)
+        finally:
+            self._stack.pop()
+            self.cur_fn = outer if self._stack else self.cur_fn
         return fn
+
+    def _helper_call(self, st: ast.stmt, key: str) -> str | None:
+        """`helper(file, ...)` / `self.helper(file, ...)` as a statement, the helper defined in this module (same class for a method) and
+        given the file object: the key of the function to walk."""
+        if not (isinstance(st, ast.Expr) and isinstance(st.value, ast.Call)):
+            return None
+        c = st.value
+        if not any(isinstance(a, ast.Name) and a.id in self.file_names for a in list(c.args) + [k.value for k in c.keywords]):
+            return None
+        if isinstance(c.func, ast.Name) and c.func.id in self.funcs:
+            return c.func.id
+        if isinstance(c.func, ast.Attribute) and isinstance(c.func.value, ast.Name) and c.func.value.id in ('self', 'cls') and '.' in key:
+            k2 = f"{key.split('.')[0]}.{c.func.attr}"
+            if k2 in self.funcs:
+                return k2
+        return None
 
     def _is_write(self, st: ast.stmt) -> ast.AST | None:
         for nm in self.file_names:
@@ -1354,6 +1537,8 @@ class _TextCensus:
                         anns = self.ann.get(it.attr, set())
                         if any(re.search(r'\bstr\b', x) for x in anns):
                             ty = 'TyStr'
+                    elif isinstance(it, ast.Name) and env.get(it.id) == 'TyStrSeq':
+                        ty = 'TyStr'
                     env[tgt.id] = ty
                 elif isinstance(tgt, ast.Tuple) and isinstance(it, (ast.List, ast.Tuple)) and all(
                         isinstance(el, ast.Tuple) and len(el.elts) == len(tgt.elts) for el in it.elts):
@@ -1377,9 +1562,29 @@ class _TextCensus:
                             env[x.id] = ty
                 self._block(st.body, env, tpl, cond, key)
                 continue
+            if isinstance(st, ast.Assign) and len(st.targets) == 1 and isinstance(st.targets[0], ast.Tuple) and isinstance(st.value, ast.Tuple) \
+                    and len(st.targets[0].elts) == len(st.value.elts) and all(isinstance(x, ast.Name) for x in st.targets[0].elts) \
+                    and not ({x.id for x in st.targets[0].elts} & {n.id for n in ast.walk(st.value) if isinstance(n, ast.Name)}):
+                # a, b = X, Y  (no target read on the right)  ==  a = X; b = Y
+                self._block([ast.copy_location(ast.Assign(targets=[x], value=y), st) for x, y in zip(st.targets[0].elts, st.value.elts)],
+                            env, tpl, cond, key)
+                continue
             if isinstance(st, ast.Assign) and len(st.targets) == 1 and isinstance(st.targets[0], ast.Name):
                 nm = st.targets[0].id
-                v = st.value
+                v = self._inline_helper(st.value)
+                self.alias.pop(nm, None)
+                if isinstance(v, ast.Attribute):
+                    self.alias[nm] = ast.unparse(v)
+                cq = self._cond_quoted(v)
+                if cq is not None:
+                    # x = f'"{E}"' if _needs_quotes(E) else E      (also through a helper: x = _quote_if_needed(E))
+                    src = ast.unparse(cq)
+                    cond[src] = 'needs_quotes'
+                    tpl[nm] = [[('fld', False, self.type_of(cq, env, where), src)]]
+                    continue
+                if isinstance(v, ast.Call) and ast.unparse(v.func) == 'escape_text' and len(v.args) == 1 and not v.keywords:
+                    tpl[nm] = [[('fld', True, self.type_of(v.args[0], env, where), ast.unparse(v.args[0]))]]
+                    continue
                 if isinstance(v, (ast.JoinedStr, ast.IfExp)) or (isinstance(v, ast.Constant) and isinstance(v.value, str)):
                     try:
                         alts = self.pieces(v, env, tpl, where)
@@ -1392,8 +1597,18 @@ class _TextCensus:
                     env[nm] = self._kind(v.attr) if self._kind(v.attr) != '?' else 'TyWord'
                 elif isinstance(v, ast.Name) and v.id in env:
                     env[nm] = env[v.id]
+                elif isinstance(v, ast.Name) and v.id.isupper():
+                    env[nm] = 'TyWord'             # a module-level constant
+                elif isinstance(v, ast.BinOp) and isinstance(v.op, ast.Add) and all(
+                        (isinstance(x, ast.Name) and env.get(x.id) == 'layout') or (isinstance(x, ast.Constant) and isinstance(x.value, str) and not x.value.strip())
+                        for x in (v.left, v.right)):
+                    env[nm] = 'layout'
                 else:
-                    env.setdefault(nm, 'TyWord')
+                    env[nm] = 'unknown'            # fails closed if it is ever written
+                continue
+            k2 = self._helper_call(st, key)
+            if k2 is not None and k2 not in self._stack and len(self._stack) < 4:
+                self.walk(k2)                  # its writes belong to the census of the caller
                 continue
             if isinstance(st, (ast.Expr, ast.Return, ast.Pass, ast.Assert, ast.AnnAssign, ast.AugAssign, ast.Raise)):
                 if any(isinstance(n, ast.Call) and isinstance(n.func, ast.Attribute) and n.func.attr == 'write'
@@ -1402,6 +1617,48 @@ class _TextCensus:
                 continue
             if isinstance(st, (ast.With, ast.Try, ast.While)):
                 raise TranslateError(f'{self.rel}: {where}: statement {type(st).__name__} not modelled in a text writer')
+
+    def _inline_helper(self, v: ast.AST, depth: int = 0) -> ast.AST:
+        """`helper(a, b)` with `def helper(p, q): return EXPR` at module level (one return, positional or keyword arguments,
+        every parameter used at most ... as often as it likes: the arguments here are attribute reads without effects) -> EXPR[p:=a, q:=b]."""
+        if not (isinstance(v, ast.Call) and isinstance(v.func, ast.Name) and v.func.id in self.funcs) or depth > 3:
+            return v
+        fn = self.funcs[v.func.id]
+        ret = _body_as_expr(fn.body)       # if c: return A / return B   ==   return A if c else B
+        if ret is None:
+            return v
+        params = [a.arg for a in fn.args.args]
+        if fn.args.vararg or fn.args.kwarg or fn.args.kwonlyargs or len(v.args) > len(params):
+            return v
+        bind = dict(zip(params, v.args))
+        for kw in v.keywords:
+            if kw.arg not in params or kw.arg in bind:
+                return v
+            bind[kw.arg] = kw.value
+        if set(bind) != set(params):
+            return v
+        if not all(isinstance(a, (ast.Name, ast.Attribute, ast.Constant)) for a in bind.values()):
+            return v                       # an argument with effects must not be duplicated
+
+        class Sub(ast.NodeTransformer):
+            def visit_Name(self, node: ast.Name) -> ast.AST:
+                return bind[node.id] if node.id in bind else node
+        import copy as _copy
+        return self._inline_helper(ast.fix_missing_locations(Sub().visit(_copy.deepcopy(ret))), depth + 1)
+
+    @staticmethod
+    def _cond_quoted(v: ast.AST) -> ast.AST | None:
+        """`f'"{E}"' if _needs_quotes(E) else E`  (or `E if not _needs_quotes(E) else f'"{E}"'`) -> E"""
+        if not isinstance(v, ast.IfExp):
+            return None
+        t, a, b = v.test, v.body, v.orelse
+        if isinstance(t, ast.UnaryOp) and isinstance(t.op, ast.Not):
+            t, a, b = t.operand, b, a
+        if isinstance(t, ast.Call) and isinstance(t.func, ast.Name) and t.func.id.startswith('_needs_quotes') and len(t.args) == 1 and not t.keywords:
+            e = ast.unparse(t.args[0])
+            if ast.unparse(b) == e and isinstance(a, ast.JoinedStr) and ast.unparse(a) == f"""f'"{{{e}}}"'""":
+                return t.args[0]
+        return None
 
     def const_callers(self, method: str, param_index: int) -> bool:
         """Every call `X.<method>(...)` in the module passes a string literal at the given position."""
@@ -1419,55 +1676,126 @@ def _coq_sites(name: str, sites: list[tuple[int, str, str, str]]) -> str:
     return f'Definition {name} : list fsite := [\n{body}\n].'
 
 
-def _snd_stack_census(fn: ast.FunctionDef, parse_one: ast.FunctionDef, init: ast.FunctionDef) -> tuple[list, list]:
+def _self_attr(e: ast.AST) -> str | None:
+    return e.attr if isinstance(e, ast.Attribute) and isinstance(e.value, ast.Name) and e.value.id == 'self' else None
+
+
+def _strip_test(e: ast.AST) -> ast.AST:
+    """The object a test looks at: `x`, `not x`, `bool(x)`, `len(x) > 0`, `x is not None`, `x is None` -> x."""
+    while True:
+        if isinstance(e, ast.UnaryOp) and isinstance(e.op, ast.Not):
+            e = e.operand
+        elif isinstance(e, ast.Call) and isinstance(e.func, ast.Name) and e.func.id in ('bool', 'len') and len(e.args) == 1 and not e.keywords:
+            e = e.args[0]
+        elif isinstance(e, ast.Compare) and len(e.ops) == 1:
+            e = e.left
+        else:
+            return e
+
+
+def _ends_in_return(body: list[ast.stmt]) -> bool:
+    return bool(body) and isinstance(body[-1], ast.Return) and body[-1].value is None
+
+
+def _early_return_to_else(stmts: list[ast.stmt]) -> list[ast.stmt]:
+    """`if c: A; return` followed by B  ==  `if c: A  else: B` (recursively); statements after a bare `return` are dropped."""
+    out: list[ast.stmt] = []
+    for i, st in enumerate(stmts):
+        if isinstance(st, ast.If) and not st.orelse and _ends_in_return(st.body):
+            new = ast.If(test=st.test, body=_early_return_to_else(st.body[:-1]) or [ast.Pass()], orelse=_early_return_to_else(stmts[i + 1:]))
+            ast.copy_location(new, st)
+            out.append(new)
+            return out
+        if isinstance(st, ast.If):
+            new = ast.If(test=st.test, body=_early_return_to_else(st.body), orelse=_early_return_to_else(st.orelse))
+            ast.copy_location(new, st)
+            out.append(new)
+            continue
+        out.append(st)
+    return out
+
+
+def _snd_stack_census(fn: ast.FunctionDef, parse_one: ast.FunctionDef, init: ast.FunctionDef) -> tuple[list, list, dict]:
     """Writer: (block name written, attribute guarding the block, attribute serialised into it).
-    Reader: (block name looked up, attribute the result is stored in)."""
-    def self_attr(e: ast.AST) -> str | None:
-        return e.attr if isinstance(e, ast.Attribute) and isinstance(e.value, ast.Name) and e.value.id == 'self' else None
+    Reader: (block name looked up, attribute the result is stored in).
+    Third result: the ASTs the executable model (Fmt/SndStacks.v) is generated from."""
+    self_attr = _self_attr
     written: list[tuple[str, str, str]] = []
+    blocks_ast: list[tuple[str, ast.AST, ast.AST, int, bool]] = []      # name, guard test, source, line, inside the v2 block
+    v2_ifs: list[ast.If] = []
+    v2_text: list[str] = []          # constant text written by export outside stack blocks
 
     def block_name(text: str) -> str | None:
         m = re.fullmatch(r'\s*([A-Za-z_]+)\s*\{\s*', text)
         return m.group(1) if m else None
 
-    def scan(stmts: list[ast.stmt]) -> None:
+    def has_serialise(n: ast.AST) -> bool:
+        return any(isinstance(x, ast.Attribute) and x.attr == 'serialise' for x in ast.walk(n))
+
+    def const_writes(stmts: list[ast.stmt]) -> list[str]:
+        out = []
+        for sub in stmts:
+            a = _is_file_write(sub)
+            if a is not None and isinstance(a, ast.Constant) and isinstance(a.value, str):
+                out.append(a.value)
+        return out
+
+    def scan(stmts: list[ast.stmt], in_v2: bool) -> None:
         for st in stmts:
             if isinstance(st, ast.If):
-                guard = self_attr(st.test)
-                names = []
-                srcs = []
-                for sub in st.body:
-                    a = _is_file_write(sub)
-                    if a is not None and isinstance(a, ast.Constant) and isinstance(a.value, str):
-                        b = block_name(a.value)
-                        if b:
-                            names.append(b)
-                    if isinstance(sub, ast.For) and any(isinstance(n, ast.Attribute) and n.attr == 'serialise' for n in ast.walk(sub)):
-                        srcs.append(self_attr(sub.iter) or ast.unparse(sub.iter))
-                if guard and srcs:
-                    if len(names) != 1 or len(srcs) != 1:
+                direct_loops = [sub for sub in st.body if isinstance(sub, ast.For) and any(
+                    isinstance(x, ast.Expr) and isinstance(x.value, ast.Call) and isinstance(x.value.func, ast.Attribute)
+                    and x.value.func.attr == 'serialise' for x in sub.body)]
+                if direct_loops:
+                    guard = self_attr(_strip_test(st.test))
+                    names = [b for b in map(block_name, const_writes(st.body)) if b]
+                    if guard is None or len(names) != 1 or len(direct_loops) != 1 or st.orelse:
                         raise TranslateError(f'sndscript.py: Sound.export line {st.lineno}: operator stack block not recognised')
-                    written.append((names[0], guard, srcs[0]))
-                else:
-                    scan(st.body)
-                    scan(st.orelse)
+                    src = direct_loops[0].iter
+                    written.append((names[0], guard, self_attr(src) or ast.unparse(src)))
+                    blocks_ast.append((names[0], st.test, src, st.lineno, in_v2))
+                    continue
+                texts = const_writes(st.body)
+                is_v2 = any('operator_stacks' in t or 'soundentry_version' in t for t in texts)
+                if not is_v2 and any('operator_stacks' in t or 'soundentry_version' in t for t in const_writes(st.orelse)):
+                    if not (isinstance(st.test, ast.UnaryOp) and isinstance(st.test.op, ast.Not)):
+                        raise TranslateError(f'sndscript.py: Sound.export line {st.lineno}: version-2 keys written when a test is false')
+                    st = ast.copy_location(ast.If(test=st.test.operand, body=st.orelse, orelse=st.body), st)
+                    texts = const_writes(st.body)
+                    is_v2 = True
+                if is_v2:
+                    v2_ifs.append(st)
+                    v2_text.extend(texts)
+                    scan(st.body, True)
+                    if has_serialise(ast.Module(body=st.orelse, type_ignores=[])):
+                        raise TranslateError(f'sndscript.py: Sound.export line {st.lineno}: stack block in the else branch of the version-2 test')
+                    continue
+                scan(st.body, in_v2)
+                scan(st.orelse, in_v2)
             elif isinstance(st, ast.For):
                 # for name, stack in [('start_stack', self.stack_start), ...]: if not stack: continue; write name; serialise stack
                 if isinstance(st.iter, (ast.List, ast.Tuple)) and isinstance(st.target, ast.Tuple) and len(st.target.elts) == 2 \
-                        and any(isinstance(n, ast.Attribute) and n.attr == 'serialise' for n in ast.walk(st)):
+                        and has_serialise(st):
                     nm_var, st_var = (x.id for x in st.target.elts)
                     ser = [ast.unparse(n.iter) for n in ast.walk(st) if isinstance(n, ast.For) and n is not st]
                     guards = [ast.unparse(n.test) for n in ast.walk(st) if isinstance(n, ast.If)]
                     name_written = any(isinstance(n, ast.FormattedValue) and isinstance(n.value, ast.Name) and n.value.id == nm_var for n in ast.walk(st))
-                    if ser != [st_var] or not name_written or not all(g in (f'not {st_var}', st_var) for g in guards):
+                    if ser != [st_var] or not name_written or len(guards) != 1 or not all(g in (f'not {st_var}', st_var) for g in guards):
                         raise TranslateError(f'sndscript.py: Sound.export line {st.lineno}: operator stack loop not recognised')
                     for el in st.iter.elts:
                         if not (isinstance(el, ast.Tuple) and len(el.elts) == 2 and isinstance(el.elts[0], ast.Constant) and self_attr(el.elts[1])):
                             raise TranslateError(f'sndscript.py: Sound.export line {st.lineno}: operator stack table entry not recognised')
                         written.append((el.elts[0].value, self_attr(el.elts[1]), self_attr(el.elts[1])))
-                elif any(isinstance(n, ast.Attribute) and n.attr == 'serialise' for n in ast.walk(st)):
+                        blocks_ast.append((el.elts[0].value, el.elts[1], el.elts[1], st.lineno, in_v2))
+                elif has_serialise(st):
                     raise TranslateError(f'sndscript.py: Sound.export line {st.lineno}: serialise loop outside a recognised stack block')
-    scan(fn.body)
+            else:
+                a = _is_file_write(st)
+                if a is not None and isinstance(a, ast.Constant) and isinstance(a.value, str) and not in_v2 \
+                        and ('operator_stacks' in a.value or 'soundentry_version' in a.value):
+                    raise TranslateError(f'sndscript.py: Sound.export line {st.lineno}: version-2 keys written outside a test')
+    body = _early_return_to_else(fn.body)
+    scan(body, False)
     # reader: a, b, c = (Keyvalues(stack_name, [... find_children('operator_stacks', stack_name)]) for stack_name in [names]) ; Sound(..., a, b, c, ...)
     read: list[tuple[str, str]] = []
     params = [a.arg for a in init.args.args][1:]
@@ -1479,14 +1807,16 @@ def _snd_stack_census(fn: ast.FunctionDef, parse_one: ast.FunctionDef, init: ast
         raise TranslateError('sndscript.py: Sound.parse_one: constructor call not found')
     arg_of = {ast.unparse(a): p for p, a in zip(params, ctor.args)}
     arg_of.update({ast.unparse(k.value): k.arg for k in ctor.keywords})
+    read_assign = None
     for n in ast.walk(parse_one):
-        if isinstance(n, ast.Assign) and isinstance(n.targets[0], ast.Tuple) and isinstance(n.value, ast.GeneratorExp):
+        if isinstance(n, ast.Assign) and isinstance(n.targets[0], ast.Tuple) and isinstance(n.value, (ast.GeneratorExp, ast.ListComp)):
             g = n.value.generators[0]
             if isinstance(g.iter, (ast.List, ast.Tuple)) and all(isinstance(x, ast.Constant) for x in g.iter.elts) \
                     and 'find_children' in ast.unparse(n.value.elt) and len(g.iter.elts) == len(n.targets[0].elts):
                 fc = [c for c in ast.walk(n.value.elt) if isinstance(c, ast.Call) and isinstance(c.func, ast.Attribute) and c.func.attr == 'find_children']
                 if len(fc) != 1 or ast.unparse(fc[0].args[-1]) != ast.unparse(g.target):
                     raise TranslateError('sndscript.py: Sound.parse_one: stack lookup not recognised')
+                read_assign = n
                 for tgt, nm in zip(n.targets[0].elts, g.iter.elts):
                     p = arg_of.get(ast.unparse(tgt))
                     if p is None:
@@ -1499,10 +1829,345 @@ def _snd_stack_census(fn: ast.FunctionDef, parse_one: ast.FunctionDef, init: ast
     for n in ast.walk(init):
         if isinstance(n, ast.Assign) and self_attr(n.targets[0]) and isinstance(n.value, ast.Name):
             attr_of[n.value.id] = self_attr(n.targets[0])
+    info = {'blocks_ast': blocks_ast, 'v2_ifs': v2_ifs, 'v2_text': v2_text, 'body': body, 'read_params': list(read), 'attr_of': attr_of,
+            'ctor': ctor, 'params': params, 'read_assign': read_assign}
     # writer attributes are the public names (properties over the private fields the constructor fills)
     read = [(nm, attr_of.get(p, p).lstrip('_')) for nm, p in read]
     written = [(a, b.lstrip('_'), c.lstrip('_')) for a, b, c in written]
-    return written, read
+    return written, read, info
+
+
+_STK = ['SStart', 'SUpdate', 'SStop']
+
+
+def _snd_stack_model(cls: ast.ClassDef, fn: ast.FunctionDef, parse_one: ast.FunctionDef, info: dict) -> tuple[list[str], dict]:
+    """The census Fmt/SndStacks.v runs on: the terms of the test that switches the version-2 keys on, and per stack block its
+    guard term and source; a term is `GForce`, `GTruthy pub s` (truthiness) or `GPresent pub s` (`is not None`), pub = through a
+    LAZY property (one that stores an empty block when the private field is None).  The three stacks are the private fields
+    the reader fills from its first / second / third looked-up block."""
+    read = info['read_params']
+    attr_of = info['attr_of']
+    if len(read) != 3:
+        raise TranslateError(f'sndscript.py: Sound.parse_one reads {len(read)} operator stacks; the model has three')
+    field_of_block = {nm: attr_of.get(p, p) for nm, p in read}          # block name -> attribute the constructor stores it in
+    fields = [field_of_block[nm] for nm, _ in read]
+    if len(set(fields)) != 3:
+        raise TranslateError('sndscript.py: two operator stack blocks are stored in the same attribute')
+    stk_of_field = {f: _STK[i] for i, f in enumerate(fields)}
+    # ---- properties: public name -> (field, lazy)
+    props: dict[str, tuple[str, bool]] = {}
+    for st in cls.body:
+        if isinstance(st, ast.FunctionDef) and any(isinstance(d, ast.Name) and d.id == 'property' for d in st.decorator_list):
+            body = [b for b in st.body if not (isinstance(b, ast.Expr) and isinstance(b.value, ast.Constant))]
+            if not body or not isinstance(body[-1], ast.Return):
+                continue
+            f = _self_attr(body[-1].value) if body[-1].value is not None else None
+            if f not in stk_of_field:
+                if any(_self_attr(n) in stk_of_field for n in ast.walk(st)):
+                    raise TranslateError(f'sndscript.py: property Sound.{st.name} uses a stack field in a way that is not modelled')
+                continue
+            if len(body) == 1:
+                props[st.name] = (f, False)
+                continue
+            ok = False
+            if len(body) == 2 and isinstance(body[0], ast.If) and not body[0].orelse and len(body[0].body) == 1:
+                t, a = body[0].test, body[0].body[0]
+                is_none = isinstance(t, ast.Compare) and len(t.ops) == 1 and isinstance(t.ops[0], ast.Is) and _self_attr(t.left) == f \
+                    and isinstance(t.comparators[0], ast.Constant) and t.comparators[0].value is None
+                empty_kv = isinstance(a, ast.Assign) and len(a.targets) == 1 and _self_attr(a.targets[0]) == f and isinstance(a.value, ast.Call) \
+                    and ast.unparse(a.value.func) == 'Keyvalues' and len(a.value.args) == 2 and isinstance(a.value.args[1], ast.List) \
+                    and not a.value.args[1].elts
+                ok = is_none and empty_kv
+            if not ok:
+                raise TranslateError(f'sndscript.py: property Sound.{st.name} is neither `return self.{f}` nor the lazy empty-block getter')
+            props[st.name] = (f, True)
+
+    def stack_of(e: ast.AST, where: str) -> tuple[str, str]:
+        a = _self_attr(e)
+        if a in stk_of_field:
+            return 'false', stk_of_field[a]
+        if a in props:
+            return ('true' if props[a][1] else 'false'), stk_of_field[props[a][0]]
+        raise TranslateError(f'sndscript.py: Sound.export {where}: `{ast.unparse(e)}` is not an operator stack of the sound')
+    # ---- the force flag: the attribute the constructor stores the parameter in that the reader passes `version == 2` to
+    ctor, params = info['ctor'], info['params']
+    locals_r: dict[str, ast.AST] = {}
+    for n in ast.walk(parse_one):
+        if isinstance(n, ast.Assign) and len(n.targets) == 1 and isinstance(n.targets[0], ast.Name):
+            locals_r[n.targets[0].id] = n.value if n.targets[0].id not in locals_r else None
+    force_param = None
+    reader_force_ok = False
+    for p, a in list(zip(params, ctor.args)) + [(k.arg, k.value) for k in ctor.keywords]:
+        if isinstance(a, ast.Compare) and len(a.ops) == 1 and isinstance(a.ops[0], ast.Eq) and isinstance(a.comparators[0], ast.Constant):
+            left = a.left
+            if isinstance(left, ast.Name) and locals_r.get(left.id) is not None:
+                left = locals_r[left.id]
+            if isinstance(left, ast.Call) and isinstance(left.func, ast.Attribute) and left.func.attr == 'int' and left.args \
+                    and isinstance(left.args[0], ast.Constant) and left.args[0].value == 'soundentry_version':
+                force_param = p
+                default = left.args[1].value if len(left.args) > 1 and isinstance(left.args[1], ast.Constant) else 0
+                reader_force_ok = a.comparators[0].value == 2 and default != 2
+    if force_param is None:
+        raise TranslateError('sndscript.py: Sound.parse_one: no constructor argument of the form `soundentry_version == N`')
+    force_attr = attr_of.get(force_param, force_param)
+    # ---- the reader builds the stacks only under `'operator_stacks' in sound_kv`, None otherwise
+    reader_block_ok = False
+    for n in ast.walk(parse_one):
+        if isinstance(n, ast.If) and info['read_assign'] is not None and any(x is info['read_assign'] for x in ast.walk(ast.Module(body=n.body, type_ignores=[]))):
+            t = n.test
+            if isinstance(t, ast.Compare) and len(t.ops) == 1 and isinstance(t.ops[0], ast.In) and isinstance(t.left, ast.Constant) \
+                    and t.left.value == 'operator_stacks':
+                none_targets: set[str] = set()
+                for o in n.orelse:
+                    if isinstance(o, ast.Assign) and isinstance(o.value, ast.Constant) and o.value.value is None:
+                        none_targets |= {x.id for x in o.targets if isinstance(x, ast.Name)}
+                reader_block_ok = none_targets == {ast.unparse(x) for x in info['read_assign'].targets[0].elts}
+    # ---- terms of a test, with locals of export inlined
+    locals_w: dict[str, ast.AST | None] = {}
+    for n in ast.walk(fn):
+        if isinstance(n, (ast.Assign, ast.AnnAssign)) and isinstance(n.targets[0] if isinstance(n, ast.Assign) else n.target, ast.Name):
+            nm = (n.targets[0] if isinstance(n, ast.Assign) else n.target).id
+            locals_w[nm] = n.value if nm not in locals_w else None
+        elif isinstance(n, (ast.For, ast.comprehension)):
+            for x in ast.walk(n.target):
+                if isinstance(x, ast.Name):
+                    locals_w[x.id] = None
+
+    def terms(e: ast.AST, where: str, depth: int = 0) -> list[str]:
+        if depth > 8:
+            raise TranslateError(f'sndscript.py: Sound.export {where}: test nested too deeply')
+        if isinstance(e, ast.BoolOp) and isinstance(e.op, ast.Or):
+            return [t for v in e.values for t in terms(v, where, depth + 1)]
+        if isinstance(e, ast.Call) and isinstance(e.func, ast.Name) and e.func.id == 'any' and len(e.args) == 1 and not e.keywords \
+                and isinstance(e.args[0], (ast.List, ast.Tuple)):
+            return [t for v in e.args[0].elts for t in terms(v, where, depth + 1)]
+        if isinstance(e, ast.Call) and isinstance(e.func, ast.Name) and e.func.id == 'bool' and len(e.args) == 1 and not e.keywords:
+            return terms(e.args[0], where, depth + 1)
+        if isinstance(e, ast.Name):
+            if locals_w.get(e.id) is None:
+                raise TranslateError(f'sndscript.py: Sound.export {where}: `{e.id}` is not a local assigned exactly once')
+            return terms(locals_w[e.id], where, depth + 1)
+        if _self_attr(e) == force_attr:
+            return ['GForce']
+        if isinstance(e, ast.Compare) and len(e.ops) == 1 and isinstance(e.comparators[0], ast.Constant):
+            op, c = e.ops[0], e.comparators[0].value
+            if isinstance(op, ast.IsNot) and c is None:
+                pub, s = stack_of(e.left, where)
+                return [f'GPresent {pub} {s}']
+            if isinstance(e.left, ast.Call) and isinstance(e.left.func, ast.Name) and e.left.func.id == 'len' and len(e.left.args) == 1 \
+                    and ((isinstance(op, (ast.Gt, ast.NotEq)) and c == 0) or (isinstance(op, ast.GtE) and c == 1)):
+                pub, s = stack_of(e.left.args[0], where)
+                if pub != 'true':
+                    raise TranslateError(f'sndscript.py: Sound.export {where}: len() of a field that may be None')
+                return [f'GTruthy {pub} {s}']
+        if isinstance(e, ast.UnaryOp) and isinstance(e.op, ast.Not) and isinstance(e.operand, ast.Compare) and len(e.operand.ops) == 1 \
+                and isinstance(e.operand.ops[0], ast.Is) and isinstance(e.operand.comparators[0], ast.Constant) and e.operand.comparators[0].value is None:
+            pub, s = stack_of(e.operand.left, where)
+            return [f'GPresent {pub} {s}']
+        if _self_attr(e) is not None:
+            pub, s = stack_of(e, where)
+            return [f'GTruthy {pub} {s}']
+        raise TranslateError(f'sndscript.py: Sound.export {where}: test `{ast.unparse(e)}` is not a disjunction of force flag / stack tests')
+    if len(info['v2_ifs']) != 1:
+        raise TranslateError(f'sndscript.py: Sound.export: {len(info["v2_ifs"])} tests guard the version-2 keys; expected one')
+    v2 = info['v2_ifs'][0]
+    test = v2.test
+    if isinstance(test, ast.UnaryOp) and isinstance(test.op, ast.Not):
+        raise TranslateError('sndscript.py: Sound.export: version-2 keys written when the test is false')
+    guard = terms(test, f'line {v2.lineno}')
+    all_text = ''.join(info['v2_text'])
+    writes_both = bool(re.search(r'soundentry_version\s+2\s', all_text)) and 'operator_stacks' in all_text
+    blocks = []
+    for name, g, src, line, in_v2 in info['blocks_ast']:
+        if not in_v2:
+            raise TranslateError(f'sndscript.py: Sound.export line {line}: stack block outside the operator_stacks block')
+        if name not in field_of_block:
+            raise TranslateError(f'sndscript.py: Sound.export line {line}: block `{name}` is not one the reader looks up')
+        gt = terms(g, f'line {line}')
+        if len(gt) != 1:
+            raise TranslateError(f'sndscript.py: Sound.export line {line}: stack block guarded by {len(gt)} tests')
+        pub, s = stack_of(src, f'line {line}')
+        blocks.append(f'mkW {stk_of_field[field_of_block[name]]} ({gt[0]}) {pub} {s}')
+    lines = [
+        f'Definition snd_v2_guard : list gterm := [{"; ".join(guard)}].   (* line {v2.lineno}: {ast.unparse(test)[:150]} *)',
+        f'Definition snd_stack_blocks : list wblock := [{"; ".join(blocks)}].',
+        f'Definition snd_v2_test_writes_version_2_and_the_stacks_block : bool := {str(writes_both).lower()}.',
+        f'Definition snd_reader_force_is_version_eq_2 : bool := {str(reader_force_ok).lower()}.',
+        f'Definition snd_reader_stacks_exist_iff_block_present : bool := {str(reader_block_ok).lower()}.',
+    ]
+    side = {'v2_guard': guard, 'stack_blocks': blocks, 'lazy_properties': {k: list(v) for k, v in props.items()}, 'force_attr': force_attr,
+            'stack_fields': fields, 'ctor_param_of_field': {attr_of.get(p, p): p for _, p in read}}
+    return lines, side
+
+
+def _vmt_needs_quotes(vmt_tree: ast.Module) -> tuple[str, dict]:
+    """vmt._needs_quotes as a decision table: `not text or text[0] in LEADING or any(c in DISALLOWED for c in text)`; the names are
+    resolved to string / frozenset literals in vmt.py or, for names imported from the tokenizer, in tokenizer.py."""
+    fn = next((n for n in vmt_tree.body if isinstance(n, ast.FunctionDef) and n.name == '_needs_quotes'), None)
+    if fn is None or len(fn.args.args) != 1:
+        raise TranslateError('vmt.py: _needs_quotes(text) not found')
+    arg = fn.args.args[0].arg
+    e = _body_as_expr(fn.body, boolean=True)
+    if e is None:
+        raise TranslateError('vmt.py: _needs_quotes is not a chain of returns / early returns / a search loop')
+    tok_tree = ast.parse(src_text('tokenizer.py'))
+
+    def chars(x: ast.AST, depth: int = 0) -> str:
+        if isinstance(x, ast.Constant) and isinstance(x.value, str):
+            return x.value
+        if isinstance(x, ast.Call) and ast.unparse(x.func) in ('frozenset', 'set', 'tuple', 'list') and len(x.args) == 1 and not x.keywords:
+            return chars(x.args[0], depth + 1)
+        if isinstance(x, (ast.Tuple, ast.List, ast.Set)) and x.elts and all(
+                isinstance(c, ast.Constant) and isinstance(c.value, str) and len(c.value) == 1 for c in x.elts):
+            return ''.join(c.value for c in x.elts)      # membership of ONE character: the same test as `in '<those characters>'`
+        if isinstance(x, ast.Name) and depth < 3:
+            for tree in (vmt_tree, tok_tree):
+                for n in tree.body:
+                    tgt = n.targets[0] if isinstance(n, ast.Assign) and len(n.targets) == 1 else n.target if isinstance(n, ast.AnnAssign) else None
+                    if isinstance(tgt, ast.Name) and tgt.id == x.id and getattr(n, 'value', None) is not None:
+                        return chars(n.value, depth + 1)
+        raise TranslateError(f'vmt.py: _needs_quotes: character set `{ast.unparse(x)}` not recognised')
+    empty = False
+    leading = ''
+    disallowed = ''
+    for t in _or_terms(e):
+        if isinstance(t, ast.UnaryOp) and isinstance(t.op, ast.Not) and isinstance(t.operand, ast.Name) and t.operand.id == arg:
+            empty = True
+        elif isinstance(t, ast.UnaryOp) and isinstance(t.op, ast.Not) and ast.unparse(t.operand) == f'len({arg})':
+            empty = True
+        elif isinstance(t, ast.Compare) and len(t.ops) == 1 and ast.unparse(t.left) == f'len({arg})' and isinstance(t.comparators[0], ast.Constant) \
+                and ((isinstance(t.ops[0], ast.Eq) and t.comparators[0].value == 0) or (isinstance(t.ops[0], ast.Lt) and t.comparators[0].value == 1)):
+            empty = True
+        elif isinstance(t, ast.Compare) and len(t.ops) == 1 and isinstance(t.ops[0], ast.Eq) and ast.unparse(t.left) == arg \
+                and isinstance(t.comparators[0], ast.Constant) and t.comparators[0].value == '':
+            empty = True
+        elif isinstance(t, ast.Compare) and len(t.ops) == 1 and isinstance(t.ops[0], ast.In) and ast.unparse(t.left) in (f'{arg}[0]', f'{arg}[:1]'):
+            if not empty:
+                raise TranslateError('vmt.py: _needs_quotes: first character tested before the empty string is excluded')
+            leading += chars(t.comparators[0])
+        elif isinstance(t, ast.Call) and ast.unparse(t.func) == f'{arg}.startswith' and len(t.args) == 1 and isinstance(t.args[0], ast.Tuple) \
+                and all(isinstance(x, ast.Constant) and isinstance(x.value, str) and len(x.value) == 1 for x in t.args[0].elts):
+            leading += ''.join(x.value for x in t.args[0].elts)
+        elif isinstance(t, ast.Call) and isinstance(t.func, ast.Name) and t.func.id == 'any' and len(t.args) == 1 \
+                and isinstance(t.args[0], ast.GeneratorExp) and len(t.args[0].generators) == 1 and not t.args[0].generators[0].ifs \
+                and ast.unparse(t.args[0].generators[0].iter) == arg and isinstance(t.args[0].generators[0].target, ast.Name) \
+                and isinstance(t.args[0].elt, ast.Compare) and len(t.args[0].elt.ops) == 1 and isinstance(t.args[0].elt.ops[0], ast.In) \
+                and ast.unparse(t.args[0].elt.left) == t.args[0].generators[0].target.id:
+            disallowed += chars(t.args[0].elt.comparators[0])
+        else:
+            raise TranslateError(f'vmt.py: _needs_quotes: term `{ast.unparse(t)}` not recognised')
+
+    def cl(x: str) -> str:
+        return '[' + '; '.join(str(ord(c)) for c in sorted(set(x))) + ']%N'
+    line = f'Definition vmt_nq : nqcfg := mkNq {str(empty).lower()} {cl(leading)} {cl(disallowed)}.   (* vmt._needs_quotes *)'
+    return line, {'empty': empty, 'leading': sorted(set(leading)), 'disallowed': sorted(set(disallowed))}
+
+
+_IND = '\x01'      # stands for `{indent}` (a layout parameter: whitespace chosen by the caller) inside a template literal
+_BARE_DELIMS = set('"\'{};,=[]()\r\n\t ')
+
+
+def _line_items(template: list[tuple]) -> list[str] | None:
+    """One written template (('lit', text) / ('fld', source, escaped)) as Fmt/TextLines.v items, or None when it is not made of
+    self-delimiting items (a quoted string mixing text and fields, a keyword or bare field not followed by space / tab / newline,
+    an escaped field outside quotes, a carriage return ...)."""
+    stream: list[tuple] = []
+    for p in template:
+        if p[0] == 'lit':
+            stream += [('c', ch) for ch in p[1]]
+        else:
+            stream.append(('f', p[2]))
+    items: list[str] = []
+    shown: list[str] = []          # re-rendering, to compare with the template
+    i = 0
+
+    def ch(k: int) -> str | None:
+        return stream[k][1] if k < len(stream) and stream[k][0] == 'c' else None
+
+    def lit(t: str) -> str:
+        return '[' + '; '.join(str(ord(c)) for c in t) + ']'
+    while i < len(stream):
+        kind, x = stream[i]
+        if kind == 'c' and x in ' \t':
+            j = i
+            while ch(j) is not None and ch(j) in ' \t':
+                j += 1
+            run = ''.join(stream[k][1] for k in range(i, j))
+            items.append(f'IWs {lit(run)}')
+            shown.append(run)
+            i = j
+        elif kind == 'c' and x == _IND:
+            items.append('IInd')
+            shown.append(_IND)
+            i += 1
+        elif kind == 'c' and x == '\n':
+            items.append('INl')
+            shown.append('\n')
+            i += 1
+        elif kind == 'c' and x in '{}':
+            items.append('IBO' if x == '{' else 'IBC')
+            shown.append(x)
+            i += 1
+        elif kind == 'c' and x == '"':
+            if i + 2 < len(stream) and stream[i + 1][0] == 'f' and ch(i + 2) == '"':
+                items.append('IQEsc' if stream[i + 1][1] else 'IQRaw')
+                shown.append('"\0"')
+                i += 3
+                continue
+            j = i + 1
+            while ch(j) is not None and ch(j) != '"':
+                j += 1
+            if ch(j) != '"':
+                return None                     # a field inside a longer quoted string, or an unterminated quote
+            text = ''.join(stream[k][1] for k in range(i + 1, j))
+            if any(c in text for c in '\\\r\n') or any(ord(c) > 126 or ord(c) < 32 for c in text):
+                return None
+            items.append(f'IQLit {lit(text)}')
+            shown.append('"' + text + '"')
+            i = j + 1
+        elif kind == 'f':
+            d = ch(i + 1)
+            if x or d is None or d not in ' \t\n':
+                return None
+            items.append(f'IBare {ord(d)}')
+            shown.append('\0' + d)
+            i += 2
+        elif kind == 'c' and x not in _BARE_DELIMS and x not in '/#' and 32 < ord(x) < 127:
+            j = i
+            while ch(j) is not None and ch(j) not in _BARE_DELIMS and 32 < ord(ch(j)) < 127:
+                j += 1
+            d = ch(j)
+            if d is None or d not in ' \t\n':
+                return None
+            word = ''.join(stream[k][1] for k in range(i, j))
+            items.append(f'IWord {lit(word)} {ord(d)}')
+            shown.append(word + d)
+            i = j + 1
+        else:
+            return None
+    want = ''.join(p[1] if p[0] == 'lit' else '\0' for p in template)
+    if ''.join(shown) != want:
+        raise TranslateError(f'text line items do not render back to the template {want!r}')
+    return items
+
+
+def _coq_lines(name: str, lines: list[list[tuple]]) -> tuple[str, int]:
+    rows = []
+    bad = 0
+    seen: set[str] = set()
+    for tpl in lines:
+        it = _line_items(tpl)
+        if it is None:
+            bad += 1
+            continue
+        row = '[' + '; '.join(it) + ']%N'
+        if row not in seen:
+            seen.add(row)
+            rows.append(row)
+    rows.sort()            # the census is a set of templates: independent of the order of the statements
+    body = ';\n  '.join(rows)
+    return (f'Definition {name} : list (list titem) := [\n  {body}\n].\n'
+            f'Definition {name}_unstructured : nat := {bad}.   (* written templates that are not made of self-delimiting items *)'), bad
 
 
 def translate_text_writers() -> tuple[str, dict]:
@@ -1510,7 +2175,9 @@ def translate_text_writers() -> tuple[str, dict]:
     snd = _TextCensus('sndscript.py')
     snd.ann.setdefault('sounds', set()).add('list[str]')
     fn_snd = snd.walk('Sound.export')
-    written, read = _snd_stack_census(fn_snd, snd.funcs['Sound.parse_one'], snd.funcs['Sound.__init__'])
+    written, read, sinfo = _snd_stack_census(fn_snd, snd.funcs['Sound.parse_one'], snd.funcs['Sound.__init__'])
+    snd_cls = next(n for n in snd.tree.body if isinstance(n, ast.ClassDef) and n.name == 'Sound')
+    model_lines, model_side = _snd_stack_model(snd_cls, fn_snd, snd.funcs['Sound.parse_one'], sinfo)
     # ---- VMT
     vmt = _TextCensus('vmt.py')
     vmt.ann.setdefault('real_name', set()).add('str')
@@ -1519,6 +2186,22 @@ def translate_text_writers() -> tuple[str, dict]:
     vmt.ann.setdefault('shader', set()).add('str')
     vmt.walk('Material.export')
     vmt.walk('_write_block')
+    nq_line, nq_side = _vmt_needs_quotes(vmt.tree)
+    line_ok = bool(vmt.cond_lines) and all([x[:2] for x in cl] == [('lit', '\t'), ('fld', True), ('lit', ' '), ('fld', True), ('lit', '\n')]
+                                           for cl in vmt.cond_lines)
+    # which attribute of the parameter object each of the two fields is: `<p>.name` then `<p>.value` of the same <p>
+    order_ok = line_ok and all(re.fullmatch(r'(\w+)\.name', cl[1][2]) and re.fullmatch(r'(\w+)\.value', cl[3][2])
+                               and cl[1][2].split('.')[0] == cl[3][2].split('.')[0] for cl in vmt.cond_lines)
+    nq_line += f'\nDefinition vmt_param_line_is_tab_name_space_value_newline : bool := {str(line_ok).lower()}.'
+    nq_line += f'\nDefinition vmt_param_line_writes_the_name_attribute_then_the_value_attribute : bool := {str(bool(order_ok)).lower()}.'
+    # the frame of the file: Material.export writes `<shader>\n\t{\n` first, the parameter lines next, `\t}\n` last
+    exp_lines = [l for fn_, l in vmt.lines if fn_ == 'Material.export']
+    frame_ok = len(exp_lines) >= 3 and [x[:2] for x in exp_lines[0]] == [('fld', 'self.shader'), ('lit', '\n\t{\n')] and exp_lines[-1] == [('lit', '\t}\n')] \
+        and [x[0] for x in exp_lines[1]] == ['lit', 'fld', 'lit', 'fld', 'lit'] and line_ok
+    nq_line += f'\nDefinition vmt_file_is_shader_brace_parameter_lines_brace : bool := {str(bool(frame_ok)).lower()}.'
+    nq_side['export_templates'] = [[list(x) for x in l] for l in exp_lines]
+    nq_side['param_line_templates'] = [[list(x) for x in cl] for cl in vmt.cond_lines]
+    snd_lines_coq, snd_bad = _coq_lines('snd_lines', [l for fn_, l in snd.lines if fn_ == 'Sound.export'])
     # ---- choreo text
     cho = _TextCensus('choreo.py')
     tags_const = cho.const_callers('export_text', 3)
@@ -1533,11 +2216,12 @@ def translate_text_writers() -> tuple[str, dict]:
 
     def cs(s: str) -> str:
         return _coq_bytes(s.encode('ascii'))
+    cho_lines_coq, cho_bad = _coq_lines('cho_lines', [l for fn_, l in cho.lines])
     lines = [
         '(* GENERATED by translate/c20_formats.py from sndscript.py (Sound.export, Sound.parse_one), vmt.py (Material.export, _write_block),',
         '   choreo.py (the export_text methods). Do not edit. *)',
         'From Coq Require Import NArith List.', 'Import ListNotations.',
-        'From SV Require Import Fmt.TextFields.',
+        'From SV Require Import Fmt.TextFields Fmt.SndStacks Fmt.VmtQuote Fmt.TextLines.',
         _coq_sites('snd_fields', snd.sites),
         _coq_sites('vmt_fields', vmt.sites),
         _coq_sites('cho_fields', cho.sites),
@@ -1545,10 +2229,15 @@ def translate_text_writers() -> tuple[str, dict]:
         + '; '.join(f'({cs(a)}, {cs(b)}, {cs(c)})' for a, b, c in written) + '].   (* block name, guarding attribute, serialised attribute *)',
         'Definition snd_stacks_read : list (list N * list N) := ['
         + '; '.join(f'({cs(a)}, {cs(b)})' for a, b in read) + '].   (* block name, attribute it is read into *)',
+        *model_lines,
+        nq_line,
+        snd_lines_coq,
+        cho_lines_coq,
         '',
     ]
     side = {'sndscript': [list(s) for s in snd.sites], 'vmt': [list(s) for s in vmt.sites], 'choreo': [list(s) for s in cho.sites],
-            'stacks_written': written, 'stacks_read': read,
+            'stacks_written': written, 'stacks_read': read, 'stack_model': model_side, 'vmt_needs_quotes': nq_side,
+            'sndscript_lines': [[list(x) for x in l] for fn_, l in snd.lines if fn_ == 'Sound.export'], 'sndscript_lines_unstructured': snd_bad, 'choreo_text_lines': len(cho.lines), 'choreo_text_lines_unstructured': cho_bad,
             'digests': {'Sound.export': ast_digest(fn_snd)}}
     return '\n'.join(lines), side
 
@@ -1586,6 +2275,7 @@ class _BinPaths:
     emit or consume (both arms of every `if`, `return` ends a path; a loop is one token holding the paths of its body)."""
 
     def __init__(self, tree: ast.Module) -> None:
+        self.mstructs = _module_structs(tree)
         self.classes = {n.name: n for n in tree.body if isinstance(n, ast.ClassDef)}
         self.ann: dict[tuple[str, str], str] = {}
         self.classvars: dict[str, dict[str, str]] = {}
@@ -1650,8 +2340,8 @@ class _BinPaths:
                 a = n.args[0]
                 for sub in ast.walk(a):
                     skip.add(id(sub))
-                if isinstance(a, ast.Call) and ast.unparse(a.func) == 'struct.pack' and isinstance(a.args[0], ast.Constant):
-                    toks = _fmt_widths(a.args[0].value, where)
+                if _struct_pack(a, self.mstructs) is not None:
+                    toks = _fmt_widths(_struct_pack(a, self.mstructs)[0], where)
                 elif isinstance(a, ast.Call) and isinstance(a.func, ast.Attribute) and a.func.attr == 'pack' \
                         and isinstance(a.func.value, ast.Attribute) and a.func.value.attr in self.classvars:
                     toks = [('var', a.func.value.attr)]
@@ -1664,8 +2354,8 @@ class _BinPaths:
                     raise TranslateError(f'choreo.py: {where}: file.write(`{ast.unparse(a)[:60]}`) not recognised')
             elif side == 'r' and f == 'binformat.struct_read' and len(n.args) == 2:
                 a = n.args[0]
-                if isinstance(a, ast.Constant) and isinstance(a.value, str):
-                    toks = _fmt_widths(a.value, where)
+                if _fmt_arg(a, self.mstructs) is not None:
+                    toks = _fmt_widths(_fmt_arg(a, self.mstructs), where)
                 elif isinstance(a, ast.Attribute) and a.attr in self.classvars:
                     toks = [('var', a.attr)]
                 else:
